@@ -20,6 +20,49 @@ Lemma final_cons s e h : final s (e :: h) = final (fst (step s e)) h.
 Proof. unfold final; cbn [run]. destruct (step s e) as [s1 o]; cbn [fst].
   destruct (run s1 h); reflexivity. Qed.
 
+(* ConfigState.__eq__ compares every field: equal means identical *)
+Lemma cfg_eqb_sound_l a b : cfg_eqb a b = true <-> a = b.
+Proof.
+  unfold cfg_eqb. destruct a as [a1 a2 a3 a4], b as [b1 b2 b3 b4]; cbn. split.
+  - intros H. apply andb_prop in H as [H H4]. apply andb_prop in H as [H H3].
+    apply andb_prop in H as [H1 H2].
+    apply Z.eqb_eq in H1, H2, H3, H4. now subst.
+  - intros H; inversion H; subst. now rewrite !Z.eqb_refl.
+Qed.
+
+(* a hit in the jit cache under a sound equality hands back the configuration itself *)
+Lemma jit_lookup_sound_l (eqb : cfg -> cfg -> bool) fn c cache c' :
+  (forall a b, eqb a b = true -> a = b) ->
+  jit_lookup eqb fn c cache = Some c' -> c' = c.
+Proof.
+  intros Hs. unfold jit_lookup.
+  destruct (find (fun p => Nat.eqb (fst p) fn && eqb c (snd p)) cache) as [p|] eqn:E; [|discriminate].
+  cbn. intros H; inversion H; subst. apply find_some in E as [_ E].
+  apply andb_prop in E as [_ E]. symmetry. now apply Hs.
+Qed.
+
+(* ... and it matters: were solver_options left out of the comparison, an inverse created with
+   options 1 passed after one created with options 0 would run with options 0 *)
+Lemma jit_lookup_unsound_example_l :
+  jit_lookup eqb_ignoring_options 0 (mkCfg 0 0 1 0) [(0%nat, mkCfg 0 0 0 0)] = Some (mkCfg 0 0 0 0).
+Proof. reflexivity. Qed.
+
+(* every route of application observes the captured configuration and leaves the objects alone *)
+Lemma step_apply_via_l s r i :
+  snd (step s (ApplyVia r i)) = nth_error (invs s) i /\
+  cur (fst (step s (ApplyVia r i))) = cur s /\ stack (fst (step s (ApplyVia r i))) = stack s /\
+  invs (fst (step s (ApplyVia r i))) = invs s.
+Proof.
+  cbn [step]. destruct (nth_error (invs s) i) as [c|]; [|auto].
+  destruct r as [| |fn|]; cbn; auto.
+  destruct (jit_lookup cfg_eqb fn c (jcache s)) as [c'|] eqn:E; cbn; auto.
+  apply jit_lookup_sound_l in E; [subst; auto|]. intros a b H. now apply cfg_eqb_sound_l.
+Qed.
+
+Lemma step_derive_l s d i :
+  cur (fst (step s (Derive d i))) = cur s /\ stack (fst (step s (Derive d i))) = stack s.
+Proof. cbn [step]. destruct (nth_error (invs s) i); cbn; auto. Qed.
+
 (* The open blocks ks (innermost first) explain the variable and the token stack. *)
 Inductive Inv (base : cfg) (st0 : list cfg) : cfg -> list cfg -> list kw -> Prop :=
 | Inv0 : Inv base st0 base st0 []
@@ -51,6 +94,8 @@ Proof.
     + eapply IH; [exact Ht|]. cbn. exact HI.
     + eapply IH; [exact Ht|]. cbn. exact HI.
     + eapply IH; [exact Ht|]. cbn. exact HI.
+    + eapply IH; [exact Ht|]. destruct (step_derive_l s d i) as [-> ->]. exact HI.
+    + eapply IH; [exact Ht|]. destruct (step_apply_via_l s r i) as (_ & -> & -> & _). exact HI.
 Qed.
 
 (* leaving every block restores exactly what was active before it, at any depth,
@@ -83,10 +128,18 @@ Proof.
   revert s; induction h as [|e h IH]; intros s.
   - exists []. unfold final; cbn. now rewrite app_nil_r.
   - rewrite final_cons. destruct (IH (fst (step s e))) as [ex Hex]. rewrite Hex.
-    destruct e; cbn [step fst invs]; try (eexists; reflexivity).
-    + destruct (stack s); cbn; eexists; reflexivity.
-    + destruct (stack s); cbn; eexists; reflexivity.
-    + rewrite <- app_assoc. eexists; reflexivity.
+    assert (H1 : exists x, invs (fst (step s e)) = invs s ++ x).
+    { destruct e.
+      - exists []. cbn. now rewrite app_nil_r.
+      - exists []. cbn [step]. destruct (stack s); cbn; now rewrite app_nil_r.
+      - exists []. cbn [step]. destruct (stack s); cbn; now rewrite app_nil_r.
+      - eexists. cbn. reflexivity.
+      - exists []. cbn. now rewrite app_nil_r.
+      - exists []. cbn. now rewrite app_nil_r.
+      - cbn [step]. destruct (nth_error (invs s) i); cbn; [eexists; reflexivity|].
+        exists []. now rewrite app_nil_r.
+      - exists []. destruct (step_apply_via_l s r i) as (_ & _ & _ & ->). now rewrite app_nil_r. }
+    destruct H1 as [x ->]. rewrite <- app_assoc. eexists; reflexivity.
 Qed.
 
 (* A lazy inverse created after h1 keeps using the configuration active at that moment,
@@ -104,7 +157,7 @@ Proof.
   assert (Hs2 : s2 = final s (h1 ++ NewInverse :: h2)) by (unfold final; now rewrite E).
   rewrite Hs2, final_app, final_cons. cbn [step fst].
   set (s1 := final s h1) in *.
-  destruct (invs_mono (mkT (cur s1) (stack s1) (invs s1 ++ [cur s1])) h2) as [ex Hex].
+  destruct (invs_mono (mkT (cur s1) (stack s1) (invs s1 ++ [cur s1]) (jcache s1)) h2) as [ex Hex].
   rewrite Hex. cbn [invs]. rewrite <- app_assoc. rewrite nth_error_app2 by (subst i; lia).
   subst i. now rewrite Nat.sub_diag.
 Qed.
@@ -225,3 +278,132 @@ Proof.
   rewrite E in Hr. apply mv_returned_l in Hr. destruct Hr as (H1 & H2 & H3).
   destruct Hd as [H|[H|H]]; congruence.
 Qed.
+
+(* ---- after the creation: derived objects and routes of application ------------------------------ *)
+
+Lemma final_snoc s h e : final s (h ++ [e]) = fst (step (final s h) e).
+Proof. rewrite final_app. unfold final at 1. cbn [run]. destruct (step (final s h) e); reflexivity. Qed.
+
+(* an application through ANY route observes the configuration stored for the object *)
+Lemma apply_via_l s h r j :
+  observe s (h ++ [ApplyVia r j]) = observe s h ++ [nth_error (invs (final s h)) j].
+Proof.
+  unfold observe, final. rewrite run_app. destruct (run s h) as [s1 o1]. cbn [run fst snd].
+  destruct (step s1 (ApplyVia r j)) as [s2 o] eqn:E. cbn [snd]. f_equal. f_equal.
+  destruct (step_apply_via_l s1 r j) as (H & _). rewrite E in H. exact H.
+Qed.
+
+Lemma pfold_fst h st : fst (fold_left pstep h st) = (fst st + length h)%nat.
+Proof.
+  revert st; induction h as [|e h IH]; intros st; cbn [fold_left length].
+  - lia.
+  - rewrite IH. destruct st as [n acc]. cbn. lia.
+Qed.
+
+(* Every object - the lazy inverses and whatever is derived from them by any chain of reductions
+   of expressions holding them, pytree round trips and .I.I - carries the configuration that was
+   active at the creation event it stems from (prov): the NewInverse at the root of the chain, or
+   the .I.I that made a new lazy inverse.  Nothing that happens afterwards changes it. *)
+Lemma provenance_l s h : invs s = [] ->
+  length (prov h) = length (invs (final s h)) /\
+  forall j p, nth_error (prov h) j = Some p ->
+    (p < length h)%nat /\ nth_error (invs (final s h)) j = Some (cur (final s (firstn p h))).
+Proof.
+  intros Hs. induction h as [|x h IH] using rev_ind.
+  - unfold prov, final; cbn. rewrite Hs. split; [reflexivity|]. intros [|j] p; discriminate.
+  - destruct IH as [HL HP]. unfold prov in *. rewrite fold_left_app. cbn [fold_left].
+    pose proof (pfold_fst h (0%nat, [])) as Hn.
+    destruct (fold_left pstep h (0%nat, [])) as [n acc]. cbn [fst snd] in *.
+    rewrite Nat.add_0_l in Hn. subst n.
+    rewrite final_snoc. set (s1 := final s h) in *.
+    assert (Hold : forall j p, nth_error acc j = Some p ->
+              (p < length (h ++ [x]))%nat /\
+              forall extra, nth_error (invs s1 ++ extra) j = Some (cur (final s (firstn p (h ++ [x]))))).
+    { intros j p H. destruct (HP j p H) as [Hlt Hv]. split; [rewrite app_length; cbn; lia|].
+      intros extra. rewrite nth_error_app1 by (apply nth_error_Some; rewrite Hv; discriminate).
+      rewrite firstn_app. replace (p - length h)%nat with 0%nat by lia. cbn [firstn].
+      rewrite app_nil_r. exact Hv. }
+    assert (Hsame : forall st', invs st' = invs s1 ->
+              length acc = length (invs st') /\
+              forall j p, nth_error acc j = Some p ->
+                (p < length (h ++ [x]))%nat /\
+                nth_error (invs st') j = Some (cur (final s (firstn p (h ++ [x]))))).
+    { intros st' E. rewrite E. split; [exact HL|]. intros j p H. destruct (Hold j p H) as [H1 H2].
+      split; [exact H1|]. specialize (H2 []). now rewrite app_nil_r in H2. }
+    assert (Hnew : forall st' v q, invs st' = invs s1 ++ [v] ->
+              (q < length (h ++ [x]))%nat -> v = cur (final s (firstn q (h ++ [x]))) ->
+              length (acc ++ [q]) = length (invs st') /\
+              forall j p, nth_error (acc ++ [q]) j = Some p ->
+                (p < length (h ++ [x]))%nat /\
+                nth_error (invs st') j = Some (cur (final s (firstn p (h ++ [x]))))).
+    { intros st' v q E Hq Hv. rewrite E. split; [rewrite !app_length; cbn; lia|].
+      intros j p H. destruct (Nat.lt_ge_cases j (length acc)) as [Hj|Hj].
+      - rewrite nth_error_app1 in H by exact Hj. destruct (Hold j p H) as [H1 H2]. auto.
+      - rewrite nth_error_app2 in H by exact Hj.
+        destruct (j - length acc)%nat as [|k] eqn:Ek; [|destruct k; discriminate].
+        cbn in H. inversion H; subst p. split; [exact Hq|].
+        assert (j = length (invs s1)) by lia. subst j.
+        rewrite nth_error_app2 by lia. rewrite Nat.sub_diag. cbn. now rewrite Hv. }
+    assert (Hfull : firstn (length h) (h ++ [x]) = h).
+    { rewrite firstn_app, Nat.sub_diag, firstn_all. cbn. apply app_nil_r. }
+    destruct x; cbn [pstep snd].
+    + apply Hsame. reflexivity.
+    + apply Hsame. cbn [step]. destruct (stack s1); reflexivity.
+    + apply Hsame. cbn [step]. destruct (stack s1); reflexivity.
+    + apply (Hnew _ (cur s1) (length h)); [reflexivity|rewrite app_length; cbn; lia|].
+      now rewrite Hfull.
+    + apply Hsame. reflexivity.
+    + apply Hsame. reflexivity.
+    + destruct (nth_error acc i) as [p|] eqn:Ei.
+      * destruct (HP i p Ei) as [Hlt Hv]. cbn [step]. fold s1 in Hv. rewrite Hv. cbn [fst].
+        destruct d.
+        -- apply (Hnew _ (cur (final s (firstn p h))) p); [reflexivity|rewrite app_length; cbn; lia|].
+           rewrite firstn_app. replace (p - length h)%nat with 0%nat by lia. cbn [firstn].
+           now rewrite app_nil_r.
+        -- apply (Hnew _ (cur (final s (firstn p h))) p); [reflexivity|rewrite app_length; cbn; lia|].
+           rewrite firstn_app. replace (p - length h)%nat with 0%nat by lia. cbn [firstn].
+           now rewrite app_nil_r.
+        -- apply (Hnew _ (cur s1) (length h)); [reflexivity|rewrite app_length; cbn; lia|].
+           now rewrite Hfull.
+      * apply Hsame. cbn [step].
+        assert (Hnone : nth_error (invs s1) i = None).
+        { apply nth_error_None. rewrite <- HL. now apply nth_error_None. }
+        now rewrite Hnone.
+    + apply Hsame. now destruct (step_apply_via_l s1 r i) as (_ & _ & _ & ->).
+Qed.
+
+(* The clause at full strength: object j, which stems from the creation event at position p of the
+   history, applied through any route after anything else has happened, uses the configuration
+   that was active just before position p. *)
+Lemma capture_everywhere_l s h r j p : invs s = [] ->
+  nth_error (prov h) j = Some p ->
+  observe s (h ++ [ApplyVia r j]) = observe s h ++ [Some (cur (final s (firstn p h)))].
+Proof.
+  intros Hs Hp. rewrite apply_via_l. destruct (provenance_l s h Hs) as [_ H].
+  destruct (H j p Hp) as [_ ->]. reflexivity.
+Qed.
+
+Lemma capture_everywhere_effect_l fails s h r j p : invs s = [] ->
+  nth_error (prov h) j = Some p ->
+  effects fails (observe s (h ++ [ApplyVia r j])) =
+  effects fails (observe s h) ++ [Some (mv fails (cur (final s (firstn p h))))].
+Proof.
+  intros Hs Hp. unfold effects. rewrite (capture_everywhere_l s h r j p Hs Hp), map_app. reflexivity.
+Qed.
+
+(* the provenance of the objects is total: as many entries as objects *)
+Lemma prov_length_l s h : invs s = [] -> length (prov h) = length (invs (final s h)).
+Proof. intros Hs. now destruct (provenance_l s h Hs). Qed.
+
+(* one derivation step, spelled out: deriving from object i (by reduce / round trip) right after h
+   gives an object with the configuration of object i, whatever is active at that moment *)
+Lemma derive_keeps_l s h d i c : d <> DInvInv ->
+  nth_error (invs (final s h)) i = Some c ->
+  invs (final s (h ++ [Derive d i])) = invs (final s h) ++ [c].
+Proof.
+  intros Hd Hi. rewrite final_snoc. cbn [step]. rewrite Hi. cbn. destruct d; congruence.
+Qed.
+Lemma inv_inv_is_new_l s h i c :
+  nth_error (invs (final s h)) i = Some c ->
+  invs (final s (h ++ [Derive DInvInv i])) = invs (final s h) ++ [cur (final s h)].
+Proof. intros Hi. rewrite final_snoc. cbn [step]. rewrite Hi. reflexivity. Qed.
